@@ -1013,6 +1013,14 @@ func ruleENCSame(c *Ctx) {
 		return
 	}
 	key := fnKey(fn)
+	findEncoder(P) // field roles
+	if probs, ok := encSameByFold(P, fn); ok {
+		msg := "the constructor folded with the exported API and the schema generator opaque: on the success path reflect.TypeFor[T]() feeds schema generation, that schema value's Codec builds the codec for a T, its Marshal() feeds NewFileWriter, and the Encoder returned holds that codec, that file writer and the caller's writer"
+		for _, cl := range []string{"schema-from-T", "codec-from-schema", "header-schema", "encoder-fields"} {
+			c.Check(probs[cl] == "", key+"/"+cl, P.pos(fn.Pos()), msg, probs[cl])
+		}
+		return
+	}
 	var typeFor, sft, codec, marshal, nfw *ssa.Call
 	for _, cs := range callsIn(fn) {
 		if cs.Static == nil || cs.Value() == nil {
